@@ -218,6 +218,16 @@ func (m *wdMon) payoutFor(ids []uint64, perturb string) (*wire.MsgTx, uint64, []
 		outs = append(outs, wire.NewTxOut(1000, world.SystemScript(b.curKey)), wire.NewTxOut(1000, world.SystemScript(b.curKey)))
 	case "change-to-foreign-key":
 		outs = append(outs, wire.NewTxOut(1000, world.SystemScript(world.BtcPubKey(world.Derive(3, "foreign", 0), false))))
+	case "change-lookalike-version", "change-lookalike-push":
+		// the current relayer key's program under another witness version, or behind another push opcode: not an output
+		// the relayer key can spend
+		sc := append([]byte(nil), world.SystemScript(b.curKey)...)
+		if perturb == "change-lookalike-version" {
+			sc[0] ^= 0x51
+		} else {
+			sc[1]++
+		}
+		outs = append(outs, wire.NewTxOut(1000, sc))
 	case "change-to-old-key":
 		if len(b.keys) >= 2 {
 			outs = append(outs, wire.NewTxOut(1000, world.SystemScript(b.keys[0])))
@@ -347,7 +357,7 @@ func (m *wdMon) replaceOp(p *procM, perturb string) *relOp {
 		return nil
 	}
 	last := p.Cands[len(p.Cands)-1]
-	tx, fee, vals := m.payoutFor(p.Ids, map[string]string{"wrong-script": "wrong-script", "value+1": "value+1", "two-extra-outputs": "two-extra-outputs", "change-to-foreign-key": "change-to-foreign-key", "change-to-old-key": "change-to-old-key", "swap-outputs": "swap-outputs", "fee-above-limit": "fee-above-limit"}[perturb])
+	tx, fee, vals := m.payoutFor(p.Ids, map[string]string{"wrong-script": "wrong-script", "value+1": "value+1", "two-extra-outputs": "two-extra-outputs", "change-to-foreign-key": "change-to-foreign-key", "change-to-old-key": "change-to-old-key", "change-lookalike-version": "change-lookalike-version", "change-lookalike-push": "change-lookalike-push", "swap-outputs": "swap-outputs", "fee-above-limit": "fee-above-limit"}[perturb])
 	raw := world.NoWitness(tx)
 	// strictly higher fee within the users' limits, unless perturbed
 	switch perturb {
@@ -569,7 +579,7 @@ func (m *wdMon) observe() {
 	m.acts = map[uint64]string{}
 }
 
-var processPerturbs = []string{"value+1", "wrong-script", "fee-above-limit", "two-extra-outputs", "change-to-foreign-key", "change-to-old-key", "swap-outputs"}
+var processPerturbs = []string{"value+1", "wrong-script", "fee-above-limit", "two-extra-outputs", "change-to-foreign-key", "change-to-old-key", "swap-outputs", "change-lookalike-version", "change-lookalike-push"}
 var finalizePerturbs = []string{"unvoted-txid", "txid-of-a-filler", "filler-under-alias", "proof-bitflip", "wrong-header", "forged-header-root", "unvoted-height", "other-pid", "unmined-candidate"}
 
 // c05Gen queues one block's worth of user requests, relayer operations and Bitcoin activity for withdrawals.
@@ -646,7 +656,8 @@ func c05Gen(m *wdMon, blk, nBlocks, idx int, addrPool []addrCase) {
 		p := open[r.Intn(len(open))]
 		perturb := ""
 		if r.Intn(2) == 0 {
-			perturb = []string{"fee-equal", "fee-lower", "same-tx", "wrong-script", "value+1", "two-extra-outputs", "change-to-foreign-key", "change-to-old-key", "swap-outputs", "fee-above-limit"}[r.Intn(10)]
+			rp := []string{"fee-equal", "fee-lower", "same-tx", "wrong-script", "value+1", "two-extra-outputs", "change-to-foreign-key", "change-to-old-key", "swap-outputs", "fee-above-limit", "change-lookalike-version", "change-lookalike-push"}
+			perturb = rp[r.Intn(len(rp))]
 		}
 		if op := m.replaceOp(p, perturb); op != nil {
 			b.ops = append(b.ops, op)
